@@ -168,7 +168,8 @@ Definition attr_names_to_show (sa : attrs) : list (string * string) :=   (* (nam
   flat_map (fun kv =>
     let n := fst kv in
     if String.eqb n "id" || String.eqb n "value" || String.eqb n "pending_value" then []
-    else if String.eqb n "expression" || prefix "history_" n then [(device_pre ++ n, n)]
+    else if renamed_base (strip_all (String.length n) n) then [(device_pre ++ n, n)]     (* expression, history_*, and the
+                                                                  device_... forms of a slave that is itself a hub *)
     else if mem n MASTER_ATTRS then []
     else [(n, n)]) sa.
 
